@@ -59,6 +59,7 @@ class FakeServer:
         self._selected = None
         self.href_style = href_style
         self.fired = None
+        self.stale_total = 0        # the result set grew by this many documents after the first page's '_meta.total' was computed
         self.ignore_where = False   # fault: a lenient / clock-skewed server that returns documents outside the requested window
         self.extra = {}        # site -> {"docs", "pages", "plan", "selected"}: further result sets served concurrently
 
@@ -99,7 +100,10 @@ class FakeServer:
             sel, sizes, site = self._selected, self._plan, self._site
         start = sum(sizes[:k])
         items = sel[start:start + sizes[k]]
-        body = {"_items": items, "_links": {"self": {"href": "x"}}, "_meta": {"page": k + 1}}
+        # Eve-style paging metadata; 'total' is what the server counted when the query started (it may be stale: documents that
+        # arrive while the client is paging are still served by following the 'next' links)
+        body = {"_items": items, "_links": {"self": {"href": "x"}},
+                "_meta": {"page": k + 1, "max_results": max([1] + list(sizes)), "total": max(0, len(sel) - self.stale_total)}}
         if k + 1 < len(sizes):
             href = "sessions/%s?page=%d&tok=%d" % (site, k + 2, 7919 * (k + 2))
             body["_links"]["next"] = {"href": href, "title": "next page"}
